@@ -6,6 +6,7 @@
   the statements hold whatever the gauge history of the operands.
 -/
 import RenoVerif.Lemmas.ChainDot
+import Mathlib.Tactic.Ring
 
 namespace RenoVerif.Chain
 open Matrix
@@ -41,6 +42,20 @@ theorem c03_inner (f : R →+* R) {ds : List ℕ} (a b : Chain R ds 1 1) :
 /-- operator on state (and, with a flattened pair index, operator on operator / density operator) -/
 theorem c03_apply {ds : List ℕ} {a b l r : ℕ} (w : OpChain R ds a b) (x : Chain R ds l r) (σ : Cfg ds) :
     amp (applyC w x) σ = ∑ τ : Cfg ds, kr (ampOp w σ τ) (amp x τ) := amp_applyC w x σ
+
+/-- `distance`: the combination `⟨a|a⟩ + ⟨b|b⟩ − ⟨a|b⟩ − conj⟨a|b⟩` the implementation computes from
+    three chain contractions is the squared Euclidean distance of the dense vectors (`f` = complex
+    conjugation: any involutive ring homomorphism) -/
+theorem c03_distance (f : R →+* R) (hf : ∀ x, f (f x) = x) {ds : List ℕ} (a b : Chain R ds 1 1) :
+    dotFrom (1 : Matrix (Fin 1) (Fin 1) R) (mapC f a) a 0 0
+      + dotFrom (1 : Matrix (Fin 1) (Fin 1) R) (mapC f b) b 0 0
+      - dotFrom (1 : Matrix (Fin 1) (Fin 1) R) (mapC f a) b 0 0
+      - f (dotFrom (1 : Matrix (Fin 1) (Fin 1) R) (mapC f a) b 0 0)
+    = ∑ c : Cfg ds, f (amp a c 0 0 - amp b c 0 0) * (amp a c 0 0 - amp b c 0 0) := by
+  rw [c03_inner, c03_inner, c03_inner, map_sum, ← Finset.sum_add_distrib, ← Finset.sum_sub_distrib,
+    ← Finset.sum_sub_distrib]
+  refine Finset.sum_congr rfl fun c _ => ?_
+  rw [map_mul, hf, map_sub]; ring
 
 /-- arithmetic followed by any canonicalisation / lossless compression is still correct -/
 theorem c03_add_then_regauge {d : ℕ} {ds : List ℕ} (a b : Chain R (d :: ds) 1 1) (x : Chain R (d :: ds) 1 1)
